@@ -89,3 +89,25 @@ contract('parso.python.tokenize._split_illegal_unicode_name', kind='generator',
                                    'implies(ylen == _i, _i == 0 and not is_illegal)',
                                    'prefix == ite(ylen == 0, old(prefix), "")'])},
          props=['C01', 'C09'])
+
+
+# ---- split_prefix (C09): the parts tile the prefix.  Each yielded part's spacing + value is literally the next slice
+# of leaf.prefix; together they cover it.  Facts about one match of the re-lexer pattern are imported from the RegLan
+# obligations of pv/obs_regex.py (named on the right); totality of the match itself is an ASSUMPTION here (A-RELEX): it is
+# the known finding re:prefix:relexer-total (form feed inside a comment), discharged only for comments without form feed.
+contract('parso.python.prefix.split_prefix', kind='generator',
+         params={'leaf': 'ref:Leaf', 'start_pos': 'pos'}, yields='ref:PrefixPart',
+         requires=['leaf is not None'],
+         yield_acc={'ylen': 'len(y.spacing) + len(y.value)'},
+         yield_ensures=['y is not None', 'y.parent is leaf',
+                        'y.spacing + y.value == leaf.prefix[ylen:ylen + len(y.spacing) + len(y.value)]'],
+         ensures=['ylen == len(leaf.prefix)'],
+         match_facts={'_regex': [
+             'matched',                                                          # A-RELEX (assumption, see above)
+             'implies(g2 == "", end == len(s))',                                 # re:prefix._regex:empty-value-only-at-end
+             'implies(g2 != "", g2[0] in ("#", "\\\\", "\\x0c", "\\n", "\\r", "\\ufeff"))',   # re:prefix._regex:type-lookup-total
+         ]},
+         loops={0: dict(invariant=['0 <= start and start <= len(leaf.prefix)', 'ylen == start',
+                                   'value != "" or (spacing == "" and start == 0)'],
+                        decreases='len(leaf.prefix) - start')},
+         props=['C09', 'C01'])
